@@ -478,6 +478,59 @@ Qed.
 Lemma hsim_column_major sh (l l' : list rec) : hsim l l' -> hsim (column_major sh l) (column_major sh l').
 Proof. unfold hsim. intros H. rewrite !map_column_major, H. reflexivity. Qed.
 
+
+(* ---- from_iters::<N> and generic views *)
+Lemma eval_list_hsim first : forall es (x x' : rec) t t' t1 ys, r_hist x = r_hist x' ->
+  eval_list ops t es x first = Some (Ok (t1, ys)) ->
+  exists t1' ys', eval_list ops t' es x' first = Some (Ok (t1', ys')) /\ hsim ys ys'.
+Proof.
+  induction es as [|e er IH]; intros x x' t t' t1 ys Hh; cbn [eval_list].
+  - intros E; inversion E; subst. eexists _, _. split; reflexivity.
+  - destruct (rec_eval ops t e x first) as [[[t2 y]| |]|] eqn:E1; try discriminate.
+    destruct (rec_eval_hsim first e _ _ _ t' _ _ Hh E1) as (t2' & y' & E1' & Hy). rewrite E1'.
+    destruct (eval_list ops t2 er x first) as [[[t3 yr]| |]|] eqn:E2; try discriminate.
+    destruct (IH _ _ _ t2' _ _ Hh E2) as (t3' & yr' & E2' & Hyr). rewrite E2'.
+    intros E; inversion E; subst. eexists _, _. split; [reflexivity|]. unfold hsim in *. cbn. congruence.
+Qed.
+
+Definition hsims (cols cols' : list (list rec)) : Prop := Forall2 hsim cols cols'.
+
+Lemma push_row_hsim : forall (ys ys' : list rec) cols cols', hsim ys ys' -> hsims cols cols' ->
+  hsims (push_row ys cols) (push_row ys' cols').
+Proof.
+  induction ys as [|y yr IH]; intros [|y' yr'] cols cols' Hy Hc; cbn in Hy; try discriminate; cbn [push_row]; [constructor|].
+  inversion Hy as [[H1 H2]]. inversion Hc; subst; [constructor|]. constructor.
+  - unfold hsim in *. cbn. congruence.
+  - apply IH; assumption.
+Qed.
+
+Lemma eval_eachN_hsim es : forall (rs rs' : list rec) first t t' t1 cols, hsim rs rs' ->
+  eval_eachN ops t es rs first = Some (Ok (t1, cols)) ->
+  exists t1' cols', eval_eachN ops t' es rs' first = Some (Ok (t1', cols')) /\ hsims cols cols'.
+Proof.
+  induction rs as [|r rest IH]; intros [|r' rest'] first t t' t1 cols H; cbn in H; try discriminate.
+  - cbn. intros E; inversion E; subst. eexists _, _. split; [reflexivity|].
+    clear. induction es; cbn [map]; constructor; [reflexivity|assumption].
+  - inversion H as [[H1 H2]]. cbn [eval_eachN].
+    destruct (eval_list ops t es r first) as [[[t2 ys]| |]|] eqn:E1; try discriminate.
+    destruct (eval_list_hsim first es _ _ _ t' _ _ H1 E1) as (t2' & ys' & E1' & Hy). rewrite E1'.
+    destruct (eval_eachN ops t2 es rest false) as [[[t3 cr]| |]|] eqn:E2; try discriminate.
+    destruct (IH _ _ _ t2' _ _ H2 E2) as (t3' & cr' & E2' & Hcr). rewrite E2'.
+    intros E; inversion E; subst. eexists _, _. split; [reflexivity|]. apply push_row_hsim; assumption.
+Qed.
+
+Lemma hsim_firstn n (l l' : list rec) : hsim l l' -> hsim (firstn n l) (firstn n l').
+Proof. unfold hsim. intros H. rewrite <- !firstn_map, H. reflexivity. Qed.
+
+Lemma hsim_Forall2 (l l' : list rec) : hsim l l' <-> Forall2 (fun r r' => r_hist r = r_hist r') l l'.
+Proof.
+  split.
+  - revert l'. induction l as [|a r IH]; intros [|b r'] H; cbn in H; try discriminate; constructor.
+    + unfold hsim in H. cbn in H. congruence.
+    + apply IH. unfold hsim in *. cbn in H. congruence.
+  - induction 1; unfold hsim in *; cbn; congruence.
+Qed.
+
 Definition hl (c : cont) (e : econt) : Prop := link c e /\ hsim (as_records c) (e_recs e).
 
 Lemma c_binary_shape t f (x y : cont) r : c_binary ops t f x y = Ok r ->
@@ -488,7 +541,7 @@ Lemma e_step_completes cenv eenv ct o ct' cs et :
   Forall2 hl cenv eenv -> cstep ops (ct, cenv) o = Some (Ok (ct', cs)) ->
   exists et' es, estep ops (et, eenv) o = Some (Ok (et', es)) /\ Forall2 hl cs es.
 Proof.
-  intros F. destruct o as [tensor var sh data|assign code c a|mode code a b|a b|mu e a|tensor sh cm e a|e1 e2 a|kind a];
+  intros F. destruct o as [tensor var sh data|assign code c a|mode code a b|a b|mu e a|tensor sh cm e a|e1 e2 a|kind a|f srcs|tensor sh cm take el a];
     cbn [cstep estep].
   - (* declarations *)
     destruct (negb (shape_valid sh (length data)) || negb (tensor || Nat.eqb (length sh) 2)) eqn:Ev; [discriminate|].
@@ -644,6 +697,106 @@ Proof.
       split; [split; reflexivity|]. unfold hsim. rewrite as_records_mk. cbn [c_data c_hist e_recs]. rewrite !map_map.
       cbn [r_hist rec_constant]. pose proof (hsim_length _ _ Hh) as L. rewrite as_records_mk, map_length in L.
       rewrite !map_const. congruence.
+  - (* generic views *)
+    destruct (sequence (map (fun k => nth_error cenv k) srcs)) as [xs|] eqn:Es; [|discriminate].
+    assert (G : exists exs, sequence (map (fun k => nth_error eenv k) srcs) = Some exs /\ Forall2 hl xs exs).
+    { clear -F Es. revert xs Es. induction srcs as [|a r IH]; intros xs; cbn [map sequence].
+      - intros E; inversion E; subst. exists []. split; [reflexivity|constructor].
+      - destruct (nth_error cenv a) as [c|] eqn:Ea; [|discriminate].
+        destruct (sequence (map _ r)) as [xr|] eqn:Er; [|discriminate]. intros E; inversion E; subst.
+        destruct (Forall2_nth_error _ _ _ _ _ F Ea) as (e & Ee & Hl). destruct (IH _ eq_refl) as (exs & Ees & Hls).
+        rewrite Ee, Ees. exists (e :: exs). split; [reflexivity|constructor; assumption]. }
+    destruct G as (exs & Ees & Hl). rewrite Ees.
+    destruct xs as [|x0 xr]; [discriminate|].
+    destruct (negb (forallb (fun y => exact_same_list (c_hist x0) (c_hist y)) xr)) eqn:Eh; [discriminate|].
+    apply negb_false_iff in Eh.
+    assert (Hsh : map (fun c => (c_tensor c, c_shape c)) (x0 :: xr) = map (fun c => (e_tensor c, e_shape c)) exs).
+    { clear -Hl. induction Hl as [|c e cl el [[L1 L2] _] _ IH]; cbn [map]; [reflexivity|]. rewrite L1, L2, IH. reflexivity. }
+    inversion Hl as [|? e0 ? er L0 Lr]; subst. rewrite <- Hsh.
+    destruct (f (map (fun c => (c_tensor c, c_shape c)) (x0 :: xr))) as [[[tensor sh] pos]|]; [|discriminate].
+    destruct (negb (sel_shape_ok tensor sh (length pos))); [discriminate|].
+    destruct (select (map (@c_data R) (x0 :: xr)) pos) as [data|] eqn:Ed; [|discriminate].
+    intros E; inversion E; subst.
+    assert (Hh : map (@as_records R) (x0 :: xr) = map (map (mk (c_hist x0))) (map (@c_data R) (x0 :: xr))).
+    { cbn [map]. f_equal. clear -Eh. induction xr as [|y r IH]; cbn [map]; [reflexivity|].
+      cbn [forallb] in Eh. apply andb_true_iff in Eh as [E1 E2]. apply exact_same_list_eq in E1.
+      rewrite as_records_mk, <- E1, IH by exact E2. reflexivity. }
+    assert (Sc : select (map (@as_records R) (x0 :: xr)) pos = Some (map (mk (c_hist x0)) data)).
+    { rewrite Hh, select_map, Ed. reflexivity. }
+    assert (Fh : Forall2 (Forall2 (fun r r' : rec => r_hist r = r_hist r')) (map (@as_records R) (x0 :: xr)) (map (@e_recs R) (e0 :: er))).
+    { clear -Hl. induction Hl as [|c e cl el [_ Hs] _ IH]; cbn [map]; constructor; [apply hsim_Forall2; exact Hs|exact IH]. }
+    destruct (select_Forall2 _ _ _ _ Fh _ Sc) as (rs & Sr & Fr). rewrite Sr.
+    eexists _, _. split; [reflexivity|]. constructor; [|constructor].
+    split; [split; reflexivity|]. rewrite as_records_mk. cbn [c_data c_hist e_recs]. apply hsim_Forall2. exact Fr.
+  - (* from_iters::<N> *)
+    destruct (nth_error cenv a) as [cx|] eqn:Ea; [|discriminate].
+    destruct (Forall2_nth_error _ _ _ _ _ F Ea) as (ex & Ee & [[L1 L2] Hh]). rewrite Ee.
+    rewrite <- L1, <- L2. destruct (cm && c_tensor cx); [discriminate|].
+    destruct (negb tensor && negb (Nat.eqb (length sh) 2)); [discriminate|].
+    destruct (Nat.eqb (length el) 0); [discriminate|].
+    destruct (eval_eachN ops ct el (firstn take (if cm then column_major (c_shape cx) (as_records cx) else as_records cx)) true)
+      as [[[t1 cols]| |]|] eqn:E1; try discriminate.
+    destruct (collect_all (map (c_from_iter tensor sh) cols)) as [cl|] eqn:Ef; [|discriminate].
+    intros E; inversion E; subst.
+    assert (Hh' : hsim (firstn take (if cm then column_major (c_shape cx) (as_records cx) else as_records cx))
+                       (firstn take (if cm then column_major (c_shape cx) (e_recs ex) else e_recs ex))).
+    { apply hsim_firstn. destruct cm; [apply hsim_column_major|]; exact Hh. }
+    destruct (eval_eachN_hsim el _ _ _ _ et _ _ Hh' E1) as (t2 & zcols & E2 & Hz). rewrite E2. cbn [omap fst snd].
+    pose proof (collect_all_records _ _ _ _ Ef) as Hrec.
+    eexists _, _. split; [reflexivity|].
+    clear -Hrec Hz. revert zcols Hz. induction Hrec as [|c col cr colr (R1 & R2 & R3) _ IH]; intros zcols Hz;
+      inversion Hz; subst; cbn [map]; constructor.
+    + split; [split; cbn; first [assumption | reflexivity | congruence]|]. cbn [e_recs]. assumption.
+    + apply IH. assumption.
+Qed.
+
+
+(* ------------------------------------------------------------------ views are relabellings *)
+Lemma select_spec {A} (xs : list (list A)) : forall pos l, select xs pos = Some l ->
+  length l = length pos /\
+  forall i k j, nth_error pos i = Some (k, j) ->
+    exists x v, nth_error xs k = Some x /\ nth_error x j = Some v /\ nth_error l i = Some v.
+Proof.
+  induction pos as [|p r IH]; intros l.
+  - intros E; inversion E; subst. split; [reflexivity|]. intros [|i] k j; discriminate.
+  - rewrite select_cons. destruct (nth_error xs (fst p)) as [x|] eqn:Ex; [|discriminate].
+    destruct (nth_error x (snd p)) as [v|] eqn:Ev; [|discriminate].
+    destruct (select xs r) as [r'|] eqn:Er; [|discriminate]. intros E; inversion E; subst.
+    destruct (IH _ eq_refl) as [L H]. split; [cbn; congruence|].
+    intros [|i] k j; cbn [nth_error].
+    + intros E1; inversion E1; subst. cbn [fst snd] in *. eauto.
+    + apply H.
+Qed.
+
+Theorem select_is_relabelling t env f srcs t' (c : cont) :
+  cstep ops (t, env) (OSelect f srcs) = Some (Ok (t', [c])) ->
+  t' = t /\
+  exists xs tensor sh pos,
+    sequence (map (fun k => nth_error env k) srcs) = Some xs /\
+    f (map (fun x => (c_tensor x, c_shape x)) xs) = Some (tensor, sh, pos) /\
+    c_tensor c = tensor /\ c_shape c = sh /\ length (c_data c) = length pos /\ elements sh = length pos /\
+    Forall (fun x => c_hist x = c_hist c) xs /\
+    forall i k j, nth_error pos i = Some (k, j) ->
+      exists x v, nth_error xs k = Some x /\ nth_error (c_data x) j = Some v /\ nth_error (c_data c) i = Some v.
+Proof.
+  cbn [cstep]. destruct (sequence (map (fun k => nth_error env k) srcs)) as [[|x0 xr]|]; try discriminate.
+  destruct (negb (forallb (fun y => exact_same_list (c_hist x0) (c_hist y)) xr)) eqn:Eh; [discriminate|].
+  apply negb_false_iff in Eh.
+  destruct (f (map (fun c0 => (c_tensor c0, c_shape c0)) (x0 :: xr))) as [[[tensor sh] pos]|] eqn:Ef; [|discriminate].
+  destruct (negb (sel_shape_ok tensor sh (length pos))) eqn:Eo; [discriminate|]. apply negb_false_iff in Eo.
+  destruct (select (map (@c_data R) (x0 :: xr)) pos) as [data|] eqn:Ed; [|discriminate].
+  intros E; inversion E; subst. split; [reflexivity|].
+  exists (x0 :: xr), tensor, sh, pos. destruct (select_spec _ _ _ Ed) as [L H].
+  split; [reflexivity|]. split; [exact Ef|]. split; [reflexivity|]. split; [reflexivity|]. split; [exact L|].
+  split.
+  { unfold sel_shape_ok in Eo. apply andb_true_iff in Eo as [Eo _]. apply shape_valid_elements in Eo. exact Eo. }
+  split.
+  { constructor; [reflexivity|]. cbn [c_hist]. clear -Eh. induction xr as [|y r IH]; constructor.
+    - cbn [forallb] in Eh. apply andb_true_iff in Eh as [E1 _]. apply exact_same_list_eq in E1. congruence.
+    - apply IH. cbn [forallb] in Eh. apply andb_true_iff in Eh as [_ E2]. exact E2. }
+  intros i k j Hp. destruct (H i k j Hp) as (l & v & Hl & Hv & Hi). rewrite nth_error_map in Hl.
+  destruct (nth_error (x0 :: xr) k) as [x|] eqn:Ex; [|discriminate]. cbn [option_map] in Hl. inversion Hl; subst.
+  exists x, v. auto.
 Qed.
 
 Lemma e_run_completes : forall prog ct cenv eenv n m ct' cenv' et n',
